@@ -292,7 +292,12 @@ func other(o op) op {
 		w.extra = append(w.extra, f)
 		saved, savedSess := w.fac, w.sess
 		w.fac, w.sess = f, map[string]*appencryption.Session{}
-		defer func() { w.fac, w.sess = saved, savedSess }()
+		defer func() {
+			for _, s := range w.sess {
+				s.Close()
+			}
+			w.fac, w.sess = saved, savedSess
+		}()
 		return o.run(w)
 	}}
 }
@@ -349,6 +354,16 @@ func scenarios() []scenario {
 		out = append(out, scenario{"sesscache-" + sc, config{sk: "simple", ik: "simple", sessCache: sc},
 			[]op{encOp("a", "p0", "x0"), other(encOp("o", "p1", "x1"))},
 			decOp("a", "p0", "x0"), churnOp("p1", "x1")})
+		// cache hits first (they move entries between the policy's segments), then evictions
+		out = append(out, scenario{"sesscache-hit-" + sc, config{sk: "simple", ik: "simple", sessCache: sc},
+			[]op{other(encOp("o", "p0", "x0")), other(encOp("o", "p1", "x1")), other(encOp("o", "p2", "x2")),
+				churnOp("p0", "x0"), churnOp("p0", "x0"), churnOp("p0", "x0")},
+			churnOp("p1", "x1"), churnOp("p2", "x2")})
+		sc2 := pol + ":2"
+		out = append(out, scenario{"sesscache-hit-" + sc2, config{sk: "simple", ik: "simple", sessCache: sc2},
+			[]op{other(encOp("o", "p0", "x0")), other(encOp("o", "p1", "x1")), other(encOp("o", "p2", "x2")), other(encOp("o", "p3", "x3")),
+				churnOp("p0", "x0"), churnOp("p1", "x1"), churnOp("p0", "x0"), churnOp("p1", "x1"), churnOp("p0", "x0")},
+			churnOp("p2", "x2"), churnOp("p3", "x3")})
 		out = append(out, scenario{"sesscache-churn-" + sc, config{sk: "simple", ik: "simple", sessCache: sc},
 			[]op{other(encOp("o", "p0", "x0")), other(encOp("o", "p1", "x1"))},
 			churnOp("p0", "x0"), churnOp("p1", "x1")})
@@ -426,6 +441,18 @@ func (w *world) close() {
 
 var nSched, nViol, nBlocked, nPoints int
 
+// settled waits for the asynchronous removers / eviction callbacks to finish after everything was
+// closed and reports how many secrets are still live (0 = every key was released).
+func (w *world) settled() int64 {
+	for i := 0; i < 200; i++ {
+		if atomic.LoadInt64(&w.sf.live) == 0 {
+			return 0
+		}
+		time.Sleep(5 * time.Millisecond)
+	}
+	return atomic.LoadInt64(&w.sf.live)
+}
+
 func preempt(filter string) {
 	for _, sc := range scenarios() {
 		if filter != "" && !strings.Contains(sc.name, filter) {
@@ -441,13 +468,14 @@ func preempt(filter string) {
 			}
 			r1, r2 := runOp(w, order[0]), runOp(w, order[1])
 			w.close()
+			leak := w.settled()
 			nSched++
 			tag := ""
-			if r1 != "ok" || r2 != "ok" {
+			if r1 != "ok" || r2 != "ok" || leak != 0 {
 				tag = " VIOLATION"
 				nViol++
 			}
-			fmt.Fprintf(out, "sched %s seq=%s,%s => A=%s B=%s%s\n", sc.name, order[0].name, order[1].name, r1, r2, tag)
+			fmt.Fprintf(out, "sched %s seq=%s,%s => A=%s B=%s leaked=%d%s\n", sc.name, order[0].name, order[1].name, r1, r2, leak, tag)
 		}
 		for _, pair := range [][2]op{{sc.a, sc.b}, {sc.b, sc.a}} {
 			// dry run: which points does the first operation pass?
@@ -521,10 +549,16 @@ func preempt(filter string) {
 					tag = " VIOLATION"
 					nViol++
 				}
-				fmt.Fprintf(out, "sched %s first=%s second=%s point=%s#%d => A=%s B=%s uac=%d%s\n", sc.name, pair[0].name, pair[1].name, at, k, resA, resB, w.sf.useAfterClose, tag)
+				leak := int64(0)
 				if resA != "stuck" && resB != "stuck" {
 					w.close()
+					leak = w.settled()
+					if leak != 0 && tag == "" {
+						tag = " VIOLATION"
+						nViol++
+					}
 				}
+				fmt.Fprintf(out, "sched %s first=%s second=%s point=%s#%d => A=%s B=%s uac=%d leaked=%d dbl=%d%s\n", sc.name, pair[0].name, pair[1].name, at, k, resA, resB, w.sf.useAfterClose, leak, w.sf.doubleClose, tag)
 			}
 		}
 	}
@@ -622,11 +656,17 @@ func stress(rounds, goroutines, opsEach int, rng *prng.R) {
 			tag = " VIOLATION"
 			nViol++
 		}
+		leak := int64(0)
 		if res == "ok" {
 			w.close()
+			leak = w.settled()
+			if leak != 0 && tag == "" {
+				tag = " VIOLATION"
+				nViol++
+			}
 		}
-		fmt.Fprintf(out, "stress round=%d cfg=sk:%s,ik:%s,shared:%v,sess:%s goroutines=%d ops=%d => %s errs=%v uac=%d dbl=%d%s\n",
-			r, cfg.sk, cfg.ik, cfg.shared, cfg.sessCache, goroutines, opsEach, res, bad, w.sf.useAfterClose, w.sf.doubleClose, tag)
+		fmt.Fprintf(out, "stress leaked=%d round=%d cfg=sk:%s,ik:%s,shared:%v,sess:%s goroutines=%d ops=%d => %s errs=%v uac=%d dbl=%d%s\n",
+			leak, r, cfg.sk, cfg.ik, cfg.shared, cfg.sessCache, goroutines, opsEach, res, bad, w.sf.useAfterClose, w.sf.doubleClose, tag)
 	}
 }
 
